@@ -110,6 +110,7 @@ let rec parse_ops toks acc =
   | "q" :: sl :: n :: r -> parse_ops r (OSpQuery (slot sl, str_of_hex n) :: acc)
   | "T" :: sl :: r -> parse_ops r (OSpTouch (slot sl) :: acc)
   | "A" :: sl :: r -> parse_ops r (OSpAdopt (slot sl) :: acc)
+  | "i" :: sl :: md :: r -> parse_ops r (OSpIterate (slot sl, n_of_int (int_of_string md)) :: acc)
   | t :: _ -> failwith ("op " ^ t)
 
 let show_res (c : cfg) (r : n list res) : string =
@@ -124,6 +125,11 @@ let handle (line : string) : string =
   | "PROF" :: r -> def_prof r; "OK"
   | ["P"; c; i] -> let c = Hashtbl.find cfgs c in show_obs (obs_pres c (parse idna c (str_of_hex i)))
   | ["R"; c; b; i] -> let c = Hashtbl.find cfgs c in show_obs (obs_pres c (parseRef idna c (str_of_hex b) (str_of_hex i)))
+  | "HN" :: c :: ops ->
+    (* a history that starts from the value of NewUrl() instead of a parse *)
+    let c = Hashtbl.find cfgs c in
+    let steps = hrun idna c (Some (empty_url []), None) (parse_ops ops []) in
+    String.concat " ; " ("U" :: List.map (fun ((e, a), b) -> fields e ^ " , " ^ fields a ^ " , " ^ fields b) steps)
   | "H" :: c :: b :: i :: ops ->
     let c = Hashtbl.find cfgs c in
     let base = if b = "!" then None else Some (str_of_hex b) in
